@@ -133,8 +133,8 @@ Definition entry_sample_index (via : string) (flags : list string) (si : string)
 Definition legacy_mean (flags : list string) (mean : bool) : bool :=
   mean || existsb (String.eqb "mean_delay") flags.
 
-(* trimPath (report/source.go:1038), applied by Report.newGraph to every Function.Filename on EVERY
-   graph build *)
+(* trimPath (report/source.go:1038), applied by Report.newGraph to every Function.Filename on the
+   full-graph build of a report *)
 Fixpoint str_index_from (s pat : string) (i : nat) : option nat :=
   if has_prefix pat s then Some i
   else match s with
@@ -460,7 +460,7 @@ Definition prepare (fmt_num : Z -> string -> string) (o : ropts) (p : profile) :
   | e => (e, mk_prepared p1 0 0)
   end.
 
-(* one call of Report.newGraph rewrites the file names of the report's profile in place *)
+(* the full-graph build of Report.newGraph rewrites the file names of the report's profile in place *)
 Definition trim_files (o : ropts) (p : profile) : profile :=
   {| p_sampletype := p_sampletype p; p_defaultsampletype := p_defaultsampletype p; p_sample := p_sample p;
      p_mapping := p_mapping p; p_location := p_location p;
@@ -472,11 +472,6 @@ Definition trim_files (o : ropts) (p : profile) : profile :=
      p_periodtype := p_periodtype p; p_period := p_period p |}.
 Definition rebuild (o : ropts) (pr : prepared) : prepared :=
   mk_prepared (trim_files o (pr_prof pr)) (pr_ix pr) (pr_total pr).
-
-(* the clean-up reaches a fixed point after one application on this profile *)
-Definition paths_stable (o : ropts) (pr : prepared) : bool :=
-  forallb (fun f => let t := trim_path (f_file f) (o_trimpath o) (o_srcpath o) in
-                    String.eqb (trim_path t (o_trimpath o) (o_srcpath o)) t) (p_function (pr_prof pr)).
 
 Definition report_samples (o : ropts) (pr : prepared) : list (gsample node_info) :=
   gsamples (eff_objnames o) (pr_ix pr) (o_mean o) (pr_prof pr).
@@ -493,20 +488,21 @@ Record trimmed := mk_trimmed { t_g : igraph; t_orig : Z; t_dropped_nodes : Z; t_
 
 Definition nlen (g : igraph) : Z := Z.of_nat (List.length (g_nodes g)).
 
-(* first pass: cum cutoff (graph mode).  Every newGraph call works on the profile the previous
-   call left behind; the third component is that state after the pass. *)
-Definition trim_pass1 (o : ropts) (pr : prepared) : igraph * Z * prepared :=
-  let pr1 := rebuild o pr in
+(* first pass: cum cutoff (graph mode).  The path clean-up of Report.newGraph runs on the full-graph
+   build only (nodes == nil; since the F42 repair, /repo 84fd0b7): [pr1] is the report's profile after
+   it, and every rebuild from a kept set works on that same profile. *)
+Definition trim_pass1 (o : ropts) (pr1 : prepared) : igraph * Z :=
   let g0 := report_graph o pr1 None in
   if 0 <? o_nodecutoff o then
     let kept := above_cum_cutoff node_info (o_nodecutoff o) g0 in
     if negb (nlen g0 =? Z.of_nat (List.length kept))
-    then (report_graph o (rebuild o pr1) (Some kept), nlen g0 - Z.of_nat (List.length kept), rebuild o pr1)
-    else (g0, 0, pr1)
-  else (g0, 0, pr1).
+    then (report_graph o pr1 (Some kept), nlen g0 - Z.of_nat (List.length kept))
+    else (g0, 0)
+  else (g0, 0).
 
 Definition new_trimmed_text (o : ropts) (pr : prepared) : trimmed :=
-  let '(g1, dropped, pr2) := trim_pass1 o pr in
+  let pr1 := rebuild o pr in
+  let '(g1, dropped) := trim_pass1 o pr1 in
   let orig := nlen g1 in
   let g1s := sort_nodes (o_cumsort o) g1 in
   let g2 :=
@@ -516,7 +512,7 @@ Definition new_trimmed_text (o : ropts) (pr : prepared) : trimmed :=
       let top := firstn (Z.to_nat (o_nodecount o)) (g_nodes g1e) in
       let kept := above_cum_cutoff node_info 0 (mk_graph top []) in
       if negb (nlen g1e =? Z.of_nat (List.length kept))
-      then sort_nodes (o_cumsort o) (report_graph o (rebuild o pr2) (Some kept))
+      then sort_nodes (o_cumsort o) (report_graph o pr1 (Some kept))
       else g1e
     else g1s in
   mk_trimmed (trim_edges node_info (o_edgecutoff o) g2) orig dropped (dropped_edges node_info (o_edgecutoff o) g2).
@@ -530,12 +526,13 @@ Definition reorder (order : list node_info) (g : igraph) : igraph :=
            (g_edges g).
 
 Definition new_trimmed_dot (o : ropts) (pr : prepared) (order : list node_info) : trimmed :=
-  let '(g1, dropped, pr2) := trim_pass1 o pr in
+  let pr1 := rebuild o pr in
+  let '(g1, dropped) := trim_pass1 o pr1 in
   let orig := nlen g1 in
   let g1e := if 0 <? o_nodecount o then trim_edges node_info (o_edgecutoff o) g1 else g1 in
   let g2 :=
     if (0 <? o_nodecount o) && negb (nlen g1 =? Z.of_nat (List.length order))
-    then report_graph o (rebuild o pr2) (Some order)
+    then report_graph o pr1 (Some order)
     else g1e in
   let g3 := reorder order g2 in
   let de := dropped_edges node_info (o_edgecutoff o) g2 in
